@@ -281,8 +281,10 @@ func (g *Gen) reportOp() Op {
 		s := g.Shards[g.R.Intn(len(g.Shards))]
 		plog = append(plog, []uint64{s, uint64(100*int(s) + 1 + g.R.Intn(4))})
 	}
+	// fields of the message the DB must not trust: the report time is the DB's tick, not the sender's
+	lt := []uint64{0, 0, 0, 0, 0, 0, 0, 0, 1, 7, 1000, 1 << 40}[g.R.Intn(12)]
 	return Op{Op: "report", Addr: addr, RPC: "rpc-" + addr + strconv.Itoa(g.R.Intn(2)), Region: "reg" + strconv.Itoa(g.R.Intn(2)),
-		PlogInc: g.R.Intn(3) == 0, Plog: plog, IDs: ids, Infos: infos}
+		PlogInc: g.R.Intn(3) == 0, Plog: plog, IDs: ids, Infos: infos, LT: lt}
 }
 
 func (g *Gen) reqsOp() Op {
